@@ -6,7 +6,7 @@
 (* real constants NPS = 10^9, SMAX = 2^63-1, DMAX = 2^64-1.                *)
 (* One ndjson line per call:                                               *)
 (*   op  "add" | "sub" (b = Duration) | "diff" | "since_unix" | "cmp" |    *)
-(*       "elapsed" (b, c = clock readings before / after the call)         *)
+(*       "elapsed" / "elapsed_sys" (b, c = clock readings before / after)  *)
 (*   a, b  [neg, s (limbs of |seconds|), ns]                               *)
 (*   out   [k |-> "some", s (limbs), ns] | "none" | "panic" | "cmp" le lt eq c*)
 (* Verdict per line:                                                       *)
@@ -64,6 +64,20 @@ Judge(r) ==
                      /\ lo.some => /\ ob.some /\ hi.some
                                     /\ B!Before(B!AsVal(lo), B!AsVal(ob)) /\ B!Before(B!AsVal(ob), B!AsVal(hi))
                      /\ ~hi.some => ~ob.some
+           \* SystemTime::elapsed: the real-time clock may be stepped between the readings; with 10 s
+           \* of slack: a clearly past time gives Some(about b - a), a clearly future one None
+           [] r.op = "elapsed_sys" ->
+                 LET ten == [s |-> <<10>>, ns |-> <<>>]
+                     ob  == Obs(r.out)
+                     aP  == B!AddDur(Val(r.a), ten)                   \* a + 10 s
+                     cP  == B!AddDur(Val(r.c), ten)                   \* c + 10 s
+                 IN  /\ r.out.k \in {"some", "none"}
+                     /\ InDomain(r.c)
+                     /\ (aP.some /\ B!Before(B!AsVal(aP), Val(r.b))) =>      \* a + 10 s <= b
+                            /\ ob.some
+                            /\ B!Before(B!AsVal(B!Diff(Val(r.b), B!AsVal(aP))), B!AsVal(ob))     \* b - a - 10 s <= ob
+                            /\ B!Before(B!AsVal(ob), B!AsVal(B!Diff(B!AsVal(cP), Val(r.a))))     \* ob <= c + 10 s - a
+                     /\ (cP.some /\ B!Before(B!AsVal(cP), Val(r.a))) => ~ob.some                \* c + 10 s <= a
            [] r.op = "cmp"  -> /\ r.out.k = "cmp"
                                /\ r.out.le = B!Before(Val(r.a), Val(r.b))
                                /\ r.out.lt = ~B!Before(Val(r.b), Val(r.a))
